@@ -62,7 +62,10 @@ static void run_C12(void)
 	for (unsigned vi = 0; vi < sizeof mulv / sizeof mulv[0]; vi++) {
 		if (v_isa_ok(mulv[vi].isa) != 1) continue;
 		static uint8_t src[256] __attribute__((aligned(64))), dst[256] __attribute__((aligned(64))), t[32]; for (int x = 0; x < 256; x++) src[x] = (uint8_t) x;
-		for (int c = 0; c < 256; c++) { gf_vect_mul_init((uint8_t) c, t); memset(dst, 0x5a, 256); int rc = mulv[vi].fn(256, t, src, dst); evals += 256;
+		for (int c = 0; c < 256; c++) { gf_vect_mul_init((uint8_t) c, t); memset(dst, 0x5a, 256); v_poison_regs(); int rc = mulv[vi].fn(256, t, src, dst); evals += 256;
+			/* and as eight calls of the minimum length 32 (short-length paths), each entered with garbage in every caller-saved register */
+			if (!rc) { static uint8_t d2[256] __attribute__((aligned(64))); memset(d2, 0xa5, 256); int rc2 = 0; for (int off = 0; off < 256 && !rc2; off += 32) { v_poison_regs(); rc2 = mulv[vi].fn(32, t, src + off, d2 + off); } evals += 256;
+				if (rc2 || memcmp(d2, dst, 256)) { int x = 0; while (x < 256 && d2[x] == dst[x]) x++; snprintf(key, sizeof key, "table-product:%s:%s:len32", mulv[vi].name, V_BUILD_TAG); v_viol(key, "c=%02x: eight calls with len 32 (rc %d) differ from one call with len 256 at x=%02x", c, rc2, x); } }
 			for (int x = 0; x < 256 && !rc; x++) if (dst[x] != refgf_mul(c, x)) { snprintf(key, sizeof key, "table-product:%s:%s", mulv[vi].name, V_BUILD_TAG); v_viol(key, "c=%02x x=%02x got %02x want %02x", c, x, dst[x], refgf_mul(c, x)); break; }
 			if (rc) { snprintf(key, sizeof key, "table-product:%s:%s", mulv[vi].name, V_BUILD_TAG); v_viol(key, "returned %d for len 256", rc); } }
 		v_set("gf_vect_mul_variants_exhausted", mulv[vi].name);
